@@ -1,4 +1,3 @@
-CONSTANTS Part = "all" MaxMult = 3 Rich = FALSE
+CONSTANTS Part = "all" MaxMult = 3 Rich = FALSE Check = FALSE
 SPECIFICATION Spec
-INVARIANT Emit
 CHECK_DEADLOCK FALSE
